@@ -379,12 +379,14 @@ def check(run):
                        "namespace; TransportServer; class multi: 2-3 served resources of different kinds in one Configuration that share namespace and "
                        "name (control: distinct names), VirtualServer host sorting before or after the Ingress hosts, each resource observed separately; Ingress with TLS/annotations/default+path backends and an optional rival owning a host; master with "
                        "1-3 minions incl. contested paths) over a random cluster of 2 namespaces x (4 services, 3 secrets, 4 policies of all kinds incl. "
-                       "invalid / wrong class, 2 AP policies, 2 AP log confs, 2 DosProtectedResources) with missing and unusable objects; NGINX OSS / Plus / "
+                       "invalid / wrong class, 2 AP policies (a third of them with a signature requirement), 2 AP log confs, 2 DosProtectedResources naming an "
+                       "APDosPolicy and/or APDosLogConf by name or ns/name, 2 APDosPolicies, 2 APDosLogConfs) plus up to 2 APUserSigs, with missing and unusable objects; NGINX OSS / Plus / "
                        "Plus+AppProtect+DoS.  Per case: (a) the real createExtendedResources with recording stores, and again after deleting / changing / repairing / "
                        "creating each of the 56+ objects of the universe (dependency = the result differs); (b) the real FindResourcesFor*, second-hop "
                        "functions and endpoints filters for every object; (c) for every dependency and two non-dependencies, a fresh controller with the real "
                        "Configurator and templates, the notification (add / update / irrelevant update / delete) through the real handler, work queue and "
-                       "lbc.sync, then: was the resource's file rewritten, and would a regeneration still change it.  A case is distinct by its full input "
+                       "lbc.sync (event kinds: add, update, update whose new version fails validation, update that repairs an unusable object, irrelevant "
+                       "Service update, delete), then: was the resource's file rewritten, and would a regeneration still change it.  A case is distinct by its full input "
                        "and non-trivial when the resource depends on at least one object.")
     run.cov["trusted_base"] = TRUSTED
     run.assumptions += [
@@ -392,8 +394,9 @@ def check(run):
         "areCustomResourcesEnabled = true (the secret -> policy hop of syncSecret is guarded by it; without it no VirtualServer exists)",
         "names and namespaces of existing objects contain neither '/' nor ',' (hypothesis valid_name of the theorems)",
         "pods (subselector, health checks) are consulted by create*Ex but are not among the kinds C15 names; not modelled",
-        "second-level hops inside appprotectdos.Configuration (DosPolicy / DosLogConf -> DosProtectedResource) and App Protect user signatures "
-        "are not modelled and not driven; informer resync as a safety net is not modelled",
+        "the edge APUserSig -> APPolicy (signature requirements, decided inside appprotect.Configuration: C19's subject) is not in the model; "
+        "its events (add / update / update-to-invalid / delete of every APUserSig) are driven through the real handler and lbc.sync and judged by the "
+        "model-free observable only; informer resync as a safety net is not modelled",
         "at most one served resource of each kind per Configuration (plus minions / routes / a rival Ingress): syncEndpointSlices updates all found "
         "resources of a class as soon as one requires it, so with several resources of one class [reaches] is a lower bound",
     ]
